@@ -23,7 +23,7 @@ let arcerr (e : ekind) : string =
    profile-dependent arithmetic - otherwise both are printed) *)
 let arc (toks : string list) : string =
   match toks with
-  | [file] ->
+  | file :: _ ->      (* further tokens carry the generator's expectation for the oracle *)
     let f = parse_b file in
     let show m =
       (match Arc.arc_from_bytes_trace m f with
